@@ -1139,7 +1139,7 @@ func (e *CEnv) call(n *ast.CallExpr) TV {
 			func() {
 				defer func() {
 					if r := recover(); r != nil {
-						if _, ok := r.(engineErr); ok {
+						if ee, ok := r.(engineErr); ok && !strings.Contains(ee.msg, "unknown identifier") && !strings.Contains(ee.msg, "macro") {
 							b = x.freshVar("unevaluable", BoolS)
 							return
 						}
